@@ -125,7 +125,17 @@ func runTopicSequenceInner(subs, buffered, handlers []string, seq []topicAct) ([
 			defer guard("Close")
 			for range closeCmd {
 				p.inClose.Store(true)
-				sub.Close()
+				// "Close can safely be called multiple times, even from different goroutines": two at the same moment
+				var cw sync.WaitGroup
+				for j := 0; j < 2; j++ {
+					cw.Add(1)
+					go func() {
+						defer cw.Done()
+						defer guard("Close")
+						sub.Close()
+					}()
+				}
+				cw.Wait()
 				p.inClose.Store(false)
 			}
 		}(p)
@@ -681,5 +691,72 @@ func cmdCancelLeak(args []string) error {
 		w.Close()
 	}
 	R.Sample("2 instances with receiver, downloaders, cleaner, sweeper and application writers; cancelled after 60-180 ms")
+	return Emit(R)
+}
+
+func init() { Commands["retry-forever"] = cmdRetryForever }
+
+// cmdRetryForever (C09): with storage_retry_forever a run of Store failures longer than storage_retry_count does not
+// make the loop give up; the commit is published as soon as the storage works again.
+func cmdRetryForever(args []string) error {
+	R := NewResult()
+	for sc := 0; sc < 2; sc++ {
+		native := sc%2 == 0
+		w, err := NewWorld(native, nil, Concs()[0], KeyConcs()[0], R)
+		if err != nil {
+			return err
+		}
+		fb := &faultBucket{Interface: memory.New(), loadGate: map[string]chan struct{}{}}
+		fb.failStores = 5
+		w.Bucket = fb
+		if err := w.AddInst(1, false); err != nil {
+			return err
+		}
+		in := w.Insts[1]
+		if native {
+			_ = w.NativeWrite(1, 1, Ver{TS: 2, Val: 1})
+		} else {
+			_ = w.ShadowPut(1, 1, 1)
+		}
+		c := w.config(in.Name)
+		c.StorageRetryForever = true
+		c.StorageRetryCount = 2
+		c.StorageRetryInterval = 2 * time.Millisecond
+		s, err := newSyncerWith(w, in, c)
+		if err != nil {
+			return err
+		}
+		ctx, cancel := context.WithCancel(context.Background())
+		done := make(chan error, 1)
+		go func() { done <- s.Sync(ctx) }()
+		stored := false
+		var early error
+		ended := false
+		for i := 0; i < 300 && !stored && !ended; i++ {
+			select {
+			case early = <-done:
+				ended = true
+			case <-time.After(10 * time.Millisecond):
+			}
+			fb.mu.Lock()
+			stored = fb.stores > 0
+			fb.mu.Unlock()
+		}
+		R.Add(1, 1, 1)
+		sig := map[string]interface{}{"prop": "C09", "class": "retry-forever", "native": native}
+		if ended {
+			R.Bad(sc, sig, "storage_retry_forever: the sync loop gave up after the Store failures (%v)", early)
+		} else if !stored {
+			R.Bad(sc, sig, "storage_retry_forever: the committed data was not published within 3 s although the storage works again after 5 failures")
+		}
+		cancel()
+		if !ended {
+			select {
+			case <-done:
+			case <-time.After(5 * time.Second):
+			}
+		}
+		w.Close()
+	}
 	return Emit(R)
 }
